@@ -1,6 +1,7 @@
 import Dia.Dump
 import Dia.Exec
 import Dia.Server
+import Dia.Fixed
 /-! Line-protocol interpreter (DESIGN.md Appendix A): one operation per input line, one answer line
 `<impl> | <spec> | <reason>` per operation. Imports model files only (no Mathlib), so it links as an executable. -/
 open Dia
@@ -75,6 +76,13 @@ def parseOp : List String → Option Op
   | ["reencode"] => some .reencode
   | _ => none
 
+def fxTy (s : String) : Option Ty :=
+  match s with
+  | "u32" => some .unsigned32 | "i32" => some .integer32 | "enum" => some .enumerated | "f32" => some .float32
+  | "time" => some .time | "ipv4" => some .ipv4 | "u64" => some .unsigned64 | "i64" => some .integer64
+  | "f64" => some .float64 | "ipv6" => some .ipv6
+  | _ => none
+
 def statusStr : Status → String
   | .ok => "ok" | .err => "err" | .bad => "bad"
 
@@ -106,8 +114,9 @@ def decLine (cfg : Cfg) (D : Dict) (bs : Bytes) : String :=
     | .panic => "rej"
   let why := match impl with
     | .ok m => "ok lie=" ++ bit (!noLieListB m.avps) ++ " depth=" ++ toString (depthList m.avps) ++
-        " n=" ++ toString m.avps.length
-    | .err e => "e=" ++ errName e
+        " n=" ++ toString m.avps.length ++ " full=" ++ bit (bs.length == m.length) ++
+        " lieTys=" ++ String.intercalate "," ((lieTysList m.avps).eraseDups.map Ty.name)
+    | .err e => "e=" ++ errName e ++ " full=" ++ bit (bs.length == fromBe ((bs.take 4).drop 1))
     | .panic => "panic"
   implS ++ " | " ++ specS ++ " | " ++ why
 
@@ -185,7 +194,9 @@ def step (s : DState) (line : String) : DState × String :=
       bit (consListB m.avps && m.length == 20 + lenList m.avps) ++ " small=" ++ bit (decide (m.length < 16777216)))
   | ["len"] =>
     let m := s.ms.msg
-    (s, toString m.length ++ " | " ++ toString (Spec.encode m.abs).length ++ " | -")
+    (s, toString m.length ++ " | " ++ toString (Spec.encode m.abs).length ++ " | wf=" ++ bit (wfListB m.avps) ++
+      " cons=" ++ bit (consListB m.avps && m.length == 20 + lenList m.avps) ++ " small=" ++
+      bit (decide (m.length < 16777216)))
   | ["dump"] => plain s s.ms.msg.dump
   | ["rt"] =>
     let m := s.ms.msg
@@ -197,7 +208,8 @@ def step (s : DState) (line : String) : DState × String :=
         | .err _ => "err"
         | .panic => "panic"
     (s, r ++ " | " ++ m.dump ++ " | typed=" ++ bit (typedListB s.ms.dict.lookup m.avps) ++ " depth=" ++
-      toString (depthList m.avps) ++ " wf=" ++ bit (wfListB m.avps))
+      toString (depthList m.avps) ++ " wf=" ++ bit (wfListB m.avps) ++ " cons=" ++
+      bit (consListB m.avps && m.length == 20 + lenList m.avps) ++ " n=" ++ toString m.avps.length)
   | ["get", c] =>
     match pU32 c with
     | some c => plain s (match s.ms.msg.getAvpIdx c with | some i => toString i | none => "-")
@@ -207,6 +219,18 @@ def step (s : DState) (line : String) : DState × String :=
     match unhex? h with
     | some bs => (s, decLine s.cfg s.ms.dict bs)
     | none => plain s "bad-op"
+  | ["fx", t, h] =>
+    match fxTy t, unhex? h with
+    | some ty, some bs =>
+      if bs.length = (fixedSize ty).getD 0 then plain s (fxLine ty bs) else plain s "bad-op"
+    | _, _ => plain s "bad-op"
+  | ["sweep", t, lo, n, blk] =>
+    match fxTy t, lo.toNat?, n.toNat?, blk.toNat? with
+    | some ty, some lo, some n, some blk =>
+      if blk = 0 then plain s "bad-op" else
+      let sums := (List.range (n / blk)).map fun k => toString (sweepFold ty blk (lo + k * blk) 0).toNat
+      plain s (String.intercalate "," sums)
+    | _, _, _, _ => plain s "bad-op"
   | ["decq", h] =>
     -- C04: outcome class only (no strict column: it would recurse as deep as the frame nests)
     match unhex? h with
